@@ -8,6 +8,8 @@
 //
 // Authorities: "both" (user and host SSH signer, bbolt database, SSHPOP provisioner),
 // "bothnodb", "none" (no SSH signer), "user" (user signer only), "host" (host signer only), and
+// "linked" (a linked CA: the real linked-CA client over an in-memory Majordomo service keeps provisioners,
+// SSH certificates and SSH revocations; jwk and sshpop provisioners only),
 // "nosshcfg" (both signers through options, no `ssh` section in the configuration), and
 // "fed": both signers plus `ssh.keys` holding a *federated* host key and a *federated* user key
 // (keys of other SSH CAs) and a non-federated old host key (a former key of this CA).
@@ -176,6 +178,7 @@ type env struct {
 	awsRoots string          // file with that certificate
 	awsSeq   int
 	router   http.Handler // the real api routes (under / and /1.0)
+	svc      *majordomo   // the Majordomo service behind authority "linked"
 }
 
 // post sends a JSON body through the real router the way ca.CA serves it (authority in the context)
@@ -394,6 +397,17 @@ func newEnv() (*env, error) {
 				panic(err)
 			}
 		}}))
+	// a linked CA: provisioners, SSH certificates and SSH revocations live at the (in-memory) Majordomo service
+	{
+		from := &fixture.CA{MiniCA: both.MiniCA, JWK: both.JWK, SSHUser: e.userKey, SSHHost: e.hostKey}
+		lca, svc, err := newLinkedCA(from, provisioner.List{
+			&provisioner.SSHPOP{Type: "SSHPOP", Name: "sshpop", Claims: &provisioner.Claims{EnableSSHCA: &tr}},
+			&provisioner.SSHPOP{Type: "SSHPOP", Name: "sshpop-noren", Claims: &provisioner.Claims{EnableSSHCA: &tr, DisableRenewal: &tr}}})
+		if err != nil {
+			return nil, fmt.Errorf("linked CA: %w", err)
+		}
+		e.cas["linked"], e.svc = lca, svc
+	}
 	e.foreign = must(ssh.NewSignerFromSigner(must(ecdsa.GenerateKey(elliptic.P256(), rand.Reader))))
 	_, edk, _ := ed25519.GenerateKey(rand.Reader)
 	e.keys["ed"] = edk
@@ -450,7 +464,7 @@ func xlist(l []string) string {
 
 func caBits(name string) (string, string) {
 	switch name {
-	case "both", "bothnodb", "fed", "nosshcfg":
+	case "both", "bothnodb", "fed", "nosshcfg", "linked":
 		return "1", "1"
 	case "user":
 		return "1", "0"
@@ -656,7 +670,7 @@ func (e *env) runSign(k *Case) (line, impl string, ok bool) {
 		}
 	}
 	line = fmt.Sprintf("op=sign prov=%s cau=%s cah=%s dbe=%s epc=1 sub=%s ssh=%s tct=%s tkid=%s tpr=%s oem=%s ousr=%s nbn=%s nbi=%s tpip=%s tva=%s tvb=%s rva=%s rvb=%s rct=%s rkid=%s rpr=%s au=%s scfg=%s key=%s%s case=x%s",
-		mprov, cau, cah, c.B(ca.DB != nil), c.X(subLine), c.B(!k.NoSSH && k.Prov != "oidc" && k.Prov != "k8ssa" && k.Prov != "aws" && k.Prov != "awsdcs"), c.X(k.Tok.CertType), c.X(k.Tok.KeyID), xlist(k.Tok.Principals),
+		mprov, cau, cah, c.B(ca.DB != nil && k.CA != "linked"), c.X(subLine), c.B(!k.NoSSH && k.Prov != "oidc" && k.Prov != "k8ssa" && k.Prov != "aws" && k.Prov != "awsdcs"), c.X(k.Tok.CertType), c.X(k.Tok.KeyID), xlist(k.Tok.Principals),
 		oem, ousr, nbn, nbi, tpip, valField(tva), valField(tvb), valField(k.RVA), valField(k.RVB), c.X(k.Req.CertType), c.X(k.Req.KeyID), xlist(k.Req.Principals), c.B(k.AddUser), c.B(k.CA != "nosshcfg"), keyClass, apiField,
 		hex.EncodeToString(must(json.Marshal(k))))
 	impl = func() (out string) {
@@ -955,7 +969,9 @@ func (e *env) runPop(k *Case) (line, impl string, ok bool) {
 			revoked = true
 		}
 	}
-	if k.Revoked {
+	if k.Revoked && k.CA == "linked" {
+		e.svc.markRevoked(strconv.FormatUint(old.Serial, 10))
+	} else if k.Revoked {
 		if ca.DB == nil {
 			return "", "", false
 		}
@@ -979,7 +995,7 @@ func (e *env) runPop(k *Case) (line, impl string, ok bool) {
 	su := cau == "1" && verifies(e.userKey)
 	sh := cah == "1" && (verifies(e.hostKey) || (k.CA == "fed" && verifies(e.oldHost)))
 	line = fmt.Sprintf("op=%s cau=%s cah=%s dbe=%s epc=1 dren=%s aexp=0 ct=%d kid=%s pr=%s pco=%s pex=%s su=%s sh=%s ny=%s ex=%s hv=%s tsig=%s tcl=%s taud=%s tsub=%s tser=%s rev=%s key=%s case=x%s",
-		k.Op, cau, cah, c.B(ca.DB != nil), c.B(k.DisRen), ct, c.X(k.Cert.KeyID), xlist(k.Cert.Principals), kvList(old.CriticalOptions), kvList(old.Extensions), c.B(su), c.B(sh),
+		k.Op, cau, cah, c.B(ca.DB != nil && k.CA != "linked"), c.B(k.DisRen), ct, c.X(k.Cert.KeyID), xlist(k.Cert.Principals), kvList(old.CriticalOptions), kvList(old.Extensions), c.B(su), c.B(sh),
 		c.B(k.Window == "future"), c.B(k.Window == "expired"), c.B(va != 0 && vb != 0),
 		c.B(k.TokKey != "other"), c.B(k.Iss != "wrong"), c.B(k.Aud != "wrong"), c.B(!k.NoSub), c.B(k.SubSer && !k.NoSub), c.B(revoked), keyClass,
 		hex.EncodeToString(must(json.Marshal(k))))
